@@ -62,6 +62,7 @@ class Ctx:
         self.samples = []
         self.violations = []
         self.violation_total = 0
+        self._witness_keys = set()
         self.harness_errors = []
         self.current_case = None
         self.current_is_probe = False
@@ -89,11 +90,12 @@ class Ctx:
         known-finding predicates); `detail` what was expected/observed."""
         self.violation_total += 1
         self.tally('violations_by_what', what)
+        key = (what, repr(sorted((klass or {}).items(), key=lambda kv: kv[0])))
         if len(self.violations) >= self.MAX_WITNESSES and not self.current_is_probe:
             # keep at most one witness per distinct (what, klass) beyond the cap
-            key = (what, repr(sorted((klass or {}).items())))
-            if any((v['what'], repr(sorted(v['klass'].items()))) == key for v in self.violations):
+            if key in self._witness_keys:
                 return
+        self._witness_keys.add(key)
         c = self.current_case if case is None else case
         from sfmon.canon import brief
         self.violations.append({
